@@ -90,10 +90,10 @@ def listKey (k : Str) : List KVs → Except Err (List Str)
 
 /-- the explicitly listed files of a dependency: scripts, then stylesheets (_core.py:1756-1759) -/
 def listedFiles (d : DepInfo) : Except Err (List Str) :=
-  match listKey kSrc d.script with
+  match listKey dtKSrc d.script with
   | .error e => .error e
   | .ok a =>
-    match listKey kHref d.stylesheet with
+    match listKey dtKHref d.stylesheet with
     | .error e => .error e
     | .ok b => .ok (a ++ b)
 
@@ -102,10 +102,10 @@ def listedFiles (d : DepInfo) : Except Err (List Str) :=
     With `all_files` the names come from the directory listing and are single components. -/
 def copyItems (d : DepInfo) (source targetDir : Str) (fs : FS) : Except Err (List (Path × Path)) :=
   if d.allFiles then
-    .ok ((fs.topLevel (resolve source)).map fun n => (resolve source ++ [n], resolve targetDir ++ [n]))
+    .ok ((fs.topLevel (pathResolve source)).map fun n => (pathResolve source ++ [n], pathResolve targetDir ++ [n]))
   else match listedFiles d with
     | .error e => .error e
-    | .ok fl => .ok (fl.map fun f => (resolve (posixJoin source f), resolve (posixJoin targetDir f)))
+    | .ok fl => .ok (fl.map fun f => (pathResolve (posixJoin source f), pathResolve (posixJoin targetDir f)))
 
 /-- one round of the "Copy all the files" loop (_core.py:1777-1784): a file is copied (overwriting), a directory
     is copied as a tree (FileExistsError — an OSError — if the destination exists), anything else is skipped -/
@@ -136,13 +136,13 @@ def copyTo (d : DepInfo) (path : Str) (iv : Bool) (fs : FS) : FS × Except Err U
     | .error e => (fs, .error e)
     | .ok items =>
       if !items.all (fun it => fs.exists it.1) then (fs, .error .exception)
-      else if fs.fileOnPath (resolve targetDir) then (fs, .error .exception)
-      else copyLoop items (fs.removeTree (resolve targetDir))
+      else if fs.fileOnPath (pathResolve targetDir) then (fs, .error .exception)
+      else copyLoop items (fs.removeTree (pathResolve targetDir))
 
 /-! ### save_html -/
 
 /-- `RenderedHTML` -/
-structure Rendered where
+structure FsRendered where
   html : Str
   deps : List DepInfo
   deriving Repr, Inhabited
@@ -155,7 +155,7 @@ def copyAll : List DepInfo → Str → Bool → FS → FS × Except Err Unit
     | (fs', .ok _) => copyAll r dest iv fs'
     | (fs', .error e) => (fs', .error e)
 
-/-- `destdir = str(Path(file).resolve().parent); if libdir: destdir = os.path.join(destdir, libdir)` -/
+/-- `destdir = str(Path(file).pathResolve().parent); if libdir: destdir = os.path.join(destdir, libdir)` -/
 def destDir (fileAbs : Str) (libdir : Option Str) : Str :=
   withPrefix' (dirname fileAbs) libdir
 where
@@ -165,16 +165,16 @@ where
 
 /-- `HTMLDocument.save_html(file, libdir, include_version)`.
     `render` is the document's own `render(lib_prefix=·, include_version=·)`; `fileAbs` is
-    `str(Path(file).resolve())` (the working directory and symbolic links are the runtime's contribution).
+    `str(Path(file).pathResolve())` (the working directory and symbolic links are the runtime's contribution).
     The text is written with the locale's encoding, modelled as UTF-8. -/
-def saveHtml (render : Option Str → Bool → Rendered) (file fileAbs : Str) (libdir : Option Str) (iv : Bool)
+def saveHtml (render : Option Str → Bool → FsRendered) (file fileAbs : Str) (libdir : Option Str) (iv : Bool)
     (fs : FS) : FS × Except Err Str :=
   let rendered := render libdir iv
   match copyAll rendered.deps (destDir fileAbs libdir) iv fs with
   | (fs', .error e) => (fs', .error e)
   | (fs', .ok _) =>
-    if fs'.isDir (resolve fileAbs) || fs'.fileOnPath (resolve fileAbs).dropLast then (fs', .error .exception)
-    else (fs'.write (resolve fileAbs) (utf8 rendered.html), .ok file)
+    if fs'.isDir (pathResolve fileAbs) || fs'.fileOnPath (pathResolve fileAbs).dropLast then (fs', .error .exception)
+    else (fs'.write (pathResolve fileAbs) (utf8 rendered.html), .ok file)
 
 /-- the three classes that offer `save_html` -/
 inductive Receiver
@@ -183,7 +183,7 @@ inductive Receiver
 
 /-- `Tag.save_html` and `TagList.save_html` are `HTMLDocument(self).save_html(file, libdir=libdir,
     include_version=include_version)`; `render` is the render method of that (wrapping) document -/
-def saveHtmlOn (_recv : Receiver) (render : Option Str → Bool → Rendered) (file fileAbs : Str)
+def saveHtmlOn (_recv : Receiver) (render : Option Str → Bool → FsRendered) (file fileAbs : Str)
     (libdir : Option Str) (iv : Bool) (fs : FS) : FS × Except Err Str :=
   saveHtml render file fileAbs libdir iv fs
 
